@@ -665,3 +665,9 @@ fn h_cmp_init_total() {
     core::mem::forget(res);
     core::mem::forget(r);
 }
+
+// (H-CMP-W-* dropped: symbolic execution of CompressionLayerWriter::write/flush did not finish in 10 min.
+//  WriterWithCount::write creates and drops a boxed `dyn Error` in its u32-conversion arm; the drop glue of
+//  `Box<dyn Error>` is unresolvable for the model checker and `std::io::Error::new` cannot be named in a
+//  kani::stub attribute on this toolchain. The compression WRITER side (block roll-over, size table,
+//  flush propagation) is therefore OUTSIDE the C01/C14 claims; see DESIGN.md.)
